@@ -3319,15 +3319,66 @@ func (r *Resolver) clearAdditional(req, resp *dns.Msg, extra ...bool) *dns.Msg {
 	shouldClearExtra := len(extra) == 0 || !extra[0]
 
 	if shouldClearExtra {
+		// What the authority said about the client subnet goes with the
+		// section it is in; keep it before the section goes.
+		scoped := answeredSubnet(resp)
 		resp.Extra = []dns.RR{}
 
 		// Preserve EDNS0 if present
 		if opt := req.IsEdns0(); opt != nil {
-			resp.Extra = append(resp.Extra, opt)
+			resp.Extra = append(resp.Extra, withAnsweredSubnet(opt, scoped))
 		}
 	}
 
 	return resp
+}
+
+// answeredSubnet returns the client-subnet option of an upstream response's
+// OPT, nil when it has none.
+func answeredSubnet(resp *dns.Msg) *dns.EDNS0_SUBNET {
+	opt := resp.IsEdns0()
+	if opt == nil {
+		return nil
+	}
+	for _, o := range opt.Option {
+		if subnet, ok := o.(*dns.EDNS0_SUBNET); ok {
+			return subnet
+		}
+	}
+	return nil
+}
+
+// withAnsweredSubnet returns the OPT to attach to a reply built from an
+// upstream response: the request's own, unless the authority answered the
+// client subnet the request forwarded — then a copy in which the authority's
+// option, SCOPE included, stands in for the request's, whose scope is zero.
+// The cache reads the scope from there; with the request's option in its
+// place every tailored answer looked global and was stored for everybody.
+// The request's OPT itself is shared with the request in flight and is left
+// as it is. An answer about some other subnet than the one asked about
+// (RFC 7871 §7.3) is ignored.
+func withAnsweredSubnet(reqOpt *dns.OPT, answered *dns.EDNS0_SUBNET) *dns.OPT {
+	if answered == nil {
+		return reqOpt
+	}
+	at := -1
+	for i, o := range reqOpt.Option {
+		if asked, ok := o.(*dns.EDNS0_SUBNET); ok {
+			if asked.Family != answered.Family || asked.SourceNetmask != answered.SourceNetmask ||
+				!asked.Address.Equal(answered.Address) {
+				return reqOpt
+			}
+			at = i
+			break
+		}
+	}
+	if at < 0 {
+		return reqOpt
+	}
+	opt := *reqOpt
+	opt.Option = slices.Clone(reqOpt.Option)
+	opt.Option[at] = answered
+	return &opt
 }
 
 func (r *Resolver) equalServers(s1, s2 *authority.Servers) bool {
